@@ -7,6 +7,7 @@ import (
 
 	plush "github.com/gobuffalo/plush/v5"
 
+	"verifharness/gen"
 	"verifharness/vrt"
 )
 
@@ -486,4 +487,26 @@ func ToleratedFaultsInBody() {
 	vrt.Assert(err == nil, "a loop whose body contains a tolerated faulty condition renders")
 	vrt.Assert(got == want, "every iteration sees its own key and value after a tolerated fault in an earlier iteration")
 	vrt.Cover("done")
+}
+
+// ---- loop bodies enumerated from a grammar, checked against the reference
+// interpreter of package gen (pre · construct · post inside the loop body)
+func init() {
+	vrt.Register("C08_generated_bodies", GeneratedBodies)
+}
+
+func GeneratedBodies() {
+	p := gen.Profile{Ifs: true, Ctl: true, Bare: true, Lets: true, Unknown: true, Conds: 2, Vals: 2, Pres: 2, Posts: 3, Leafs: 3, Iters: 7}
+	if vrt.Tier() > 0 {
+		p = gen.Profile{Ifs: true, Elifs: true, Ctl: true, Bare: true, Lets: true, Unknown: true, Conds: 6, Vals: 2, Iters: 7}
+	}
+	g := &gen.G{P: p}
+	key := ""
+	if vrt.Choice(2) == 1 {
+		key = "i"
+	}
+	it := g.Iterable(7)
+	body := g.Block(gen.Cx{Loop: true, Inner: "e", Key: key}, 0)
+	prog := []*gen.Stmt{gen.Text("<"), gen.For(key, "e", it, body), gen.Text(">")}
+	gen.Check(prog, gen.NewData(maxLen()), "loop body from the grammar")
 }
